@@ -28,6 +28,10 @@ pub enum Change {
     PoolSizeA,
     PoolModeA,
     PasswordB,
+    /// pb has a second user u2 from the start; the new file no longer has it
+    RemoveUserB,
+    /// pa starts as primary A1 + replica AR (default_role primary); the new file swaps the two roles and nothing else
+    SwapRolesA,
     InvalidSyntax(u8),
     /// semantic defect (kind) in pool index (0 = pa, 1 = pb, 2 = an added pool pc)
     InvalidSemantic(u8, u8),
@@ -60,7 +64,7 @@ impl Part for WirePart {
         true
     }
     fn rule(&self) -> String {
-        "old configuration = pools pa and pb (optionally an untouched pd) on their own mock backends; new configuration = one mutation: identical, [general]-only, pool pb removed, pool pc added, pa re-pointed to another backend, replica added to pa, pa's pool_size or pool_mode changed, pb's password changed, syntactically invalid TOML (3 kinds), semantically invalid (bad default_role, non-numeric shard, out-of-range default_shard, splitting without parser, user without password) in pa, pb or an added pool; trigger admin RELOAD or SIGHUP; optionally the pa client is inside a transaction and the pb client has a statement held at the backend while the reload happens. Oracle: invalid => SHOW CONFIG/SHOW DATABASES identical, no backend session opened or closed by the reload, later transactions on the same backend connections; valid => unchanged pools keep their backend connections (none opened), changed/added/removed pools are in effect for the next transaction (re-pointed pool served by the new backend only, removed pool answered with an error and nothing reaching any backend, added pool reachable), and work open across the reload completes on its original connection with the client's own rows. Non-trivial = a definition change or an invalid file while at least one client has open work".into()
+        "old configuration = pools pa and pb (optionally an untouched pd) on their own mock backends; new configuration = one mutation: identical, [general]-only, pool pb removed, pool pc added, pa re-pointed to another backend, replica added to pa, pa's pool_size or pool_mode changed, pb's password changed, one of pb's two users removed, the roles of pa's primary and replica swapped, syntactically invalid TOML (3 kinds), semantically invalid (bad default_role, non-numeric shard, out-of-range default_shard, splitting without parser, user without password) in pa, pb or an added pool; trigger admin RELOAD or SIGHUP; optionally the pa client is inside a transaction and the pb client has a statement held at the backend while the reload happens. Oracle: invalid => SHOW CONFIG/SHOW DATABASES identical, no backend session opened or closed by the reload, later transactions on the same backend connections; valid => unchanged pools keep their backend connections (none opened), changed/added/removed pools are in effect for the next transaction (re-pointed pool served by the new backend only, removed pool answered with an error and nothing reaching any backend, added pool reachable), and work open across the reload completes on its original connection with the client's own rows. Non-trivial = a definition change or an invalid file while at least one client has open work".into()
     }
     fn cases(&self, tier: Tier) -> u64 {
         tier.pick(1_000, 14_000)
@@ -76,6 +80,8 @@ impl Part for WirePart {
             1 => Just(Change::PoolSizeA),
             1 => Just(Change::PoolModeA),
             1 => Just(Change::PasswordB),
+            2 => Just(Change::RemoveUserB),
+            2 => Just(Change::SwapRolesA),
             2 => (0u8..3).prop_map(Change::InvalidSyntax),
             5 => (0u8..5, 0u8..3).prop_map(|(k, p)| Change::InvalidSemantic(k, p)),
         ];
@@ -115,8 +121,18 @@ fn base_config(mocks: &[crate::mock::MockServer], c: &Case) -> PgcatConfig {
     let mut cfg = PgcatConfig::new();
     cfg.set_general("worker_threads", &c.workers.to_string());
     cfg.set_general("connect_timeout", "2000");
-    cfg.pools.push(pool("pa", mocks, &[(A1, "primary")], 2, "transaction", "pw"));
-    cfg.pools.push(pool("pb", mocks, &[(B1, "primary")], 2, "transaction", "pw"));
+    if c.change == Change::SwapRolesA {
+        let mut pa = pool("pa", mocks, &[(A1, "primary"), (AR, "replica")], 2, "transaction", "pw");
+        pa.settings.push(("default_role".into(), "\"primary\"".into()));
+        cfg.pools.push(pa);
+    } else {
+        cfg.pools.push(pool("pa", mocks, &[(A1, "primary")], 2, "transaction", "pw"));
+    }
+    let mut pb = pool("pb", mocks, &[(B1, "primary")], 2, "transaction", "pw");
+    if c.change == Change::RemoveUserB {
+        pb.users.push(UserDef { key: "1".into(), username: "u2".into(), password: Some("pw2".into()), pool_size: 2, extra: vec![] });
+    }
+    cfg.pools.push(pb);
     if c.extra_pool {
         cfg.pools.push(pool("pd", mocks, &[(D1, "primary")], 2, "transaction", "pw"));
     }
@@ -137,6 +153,12 @@ fn new_config(mocks: &[crate::mock::MockServer], c: &Case, port: u16) -> (String
         Change::PoolSizeA => cfg.pools[0] = pool("pa", mocks, &[(A1, "primary")], 3, "transaction", "pw"),
         Change::PoolModeA => cfg.pools[0] = pool("pa", mocks, &[(A1, "primary")], 2, "session", "pw"),
         Change::PasswordB => cfg.pools[1] = pool("pb", mocks, &[(B1, "primary")], 2, "transaction", "newpw"),
+        Change::RemoveUserB => cfg.pools[1].users.truncate(1),
+        Change::SwapRolesA => {
+            let mut pa = pool("pa", mocks, &[(A1, "replica"), (AR, "primary")], 2, "transaction", "pw");
+            pa.settings.push(("default_role".into(), "\"primary\"".into()));
+            cfg.pools[0] = pa;
+        }
         Change::InvalidSyntax(_) => valid = false,
         Change::InvalidSemantic(kind, which) => {
             valid = false;
@@ -233,6 +255,18 @@ async fn run_case(c: &Case, ctx: &mut WorkerCtx) -> Outcome {
         Ok(a) => a,
         Err(e) => inconclusive!(e),
     };
+    let mut cu2: Option<Cli> = None;
+    if c.change == Change::RemoveUserB {
+        let mut k = match env.client(3, "u2", "pb", "pw2", &[]).await {
+            Ok(c) => c,
+            Err(e) => inconclusive!(e),
+        };
+        let x = prog::run_req(&mut k, &Req::Simple(vec![St::new(Sk::Select)]), t0).await;
+        if !matches!(x.end, ReadEnd::Ready(_)) {
+            inconclusive!("pre-reload traffic of u2 not answered".to_string());
+        }
+        cu2 = Some(k);
+    }
     // ---- traffic before the reload
     let xa = prog::run_req(&mut ca, &Req::Simple(vec![St::new(Sk::Select)]), t0).await;
     let xb = prog::run_req(&mut cb, &Req::Simple(vec![St::new(Sk::Select)]), t0).await;
@@ -277,7 +311,7 @@ async fn run_case(c: &Case, ctx: &mut WorkerCtx) -> Outcome {
     o.label(if c.sighup { "sighup" } else { "reload_command" });
     if c.sighup {
         env.pg.signal(libc::SIGHUP);
-        if valid && defines_change && c.change != Change::PasswordB {
+        if valid && defines_change && !matches!(c.change, Change::PasswordB | Change::SwapRolesA) {
             // sync point: the admin console reflects the new file
             let deadline = Instant::now() + Duration::from_secs(3);
             loop {
@@ -354,9 +388,9 @@ async fn run_case(c: &Case, ctx: &mut WorkerCtx) -> Outcome {
         }
     }
     // ---- next transactions
-    let pa_changed = valid && matches!(c.change, Change::RepointA | Change::AddReplicaA | Change::PoolSizeA | Change::PoolModeA);
+    let pa_changed = valid && matches!(c.change, Change::RepointA | Change::AddReplicaA | Change::PoolSizeA | Change::PoolModeA | Change::SwapRolesA);
     let pb_removed = valid && c.change == Change::RemovePoolB;
-    let pb_changed = valid && c.change == Change::PasswordB;
+    let pb_changed = valid && matches!(c.change, Change::PasswordB | Change::RemoveUserB);
     // pa
     let x = prog::run_req(&mut ca, &Req::Simple(vec![St::new(Sk::Select)]), t0).await;
     if !matches!(x.end, ReadEnd::Ready(_)) || x.reply.iter().any(|m| m.code == b'E') {
@@ -367,6 +401,7 @@ async fn run_case(c: &Case, ctx: &mut WorkerCtx) -> Outcome {
         let allowed: Vec<usize> = match c.change {
             Change::RepointA => vec![A2],
             Change::AddReplicaA => vec![A1, AR],
+            Change::SwapRolesA => vec![AR],
             _ => vec![A1],
         };
         if a_after.is_empty() || a_after.iter().any(|(s, _)| !allowed.contains(s)) {
@@ -408,7 +443,24 @@ async fn run_case(c: &Case, ctx: &mut WorkerCtx) -> Outcome {
         if !pb_changed && b_after.iter().any(|c| !open_before(&env.log(), mark, *c)) {
             bail!("unchanged-pool-lost-its-connections", format!("pb is unchanged by {:?} but its client moved from backend connection {:?} to {:?}", c.change, b_before, b_after));
         }
-        if pb_changed {
+        if let Some(k) = cu2.as_mut() {
+            // the removed user's connected client is turned away, nothing of it reaches a backend, and it cannot log in again
+            let t = k.tag();
+            let (m, e) = k.simple(&format!("{} SELECT v FROM t", t.render()), wire::T_REPLY).await;
+            let seen = conns_of_tag(&env.log(), t);
+            if !seen.is_empty() {
+                bail!("removed-pool-still-served", format!("user u2 was removed from pb but its client's new transaction ran on {:?}", seen.iter().map(|(s, _)| env.mocks[*s].label.clone()).collect::<Vec<_>>()));
+            }
+            if !m.iter().any(|x| x.code == b'E') && matches!(e, ReadEnd::Ready(_)) {
+                bail!("removed-pool-no-error", "user u2 was removed from pb but its client's new transaction got no error".to_string());
+            }
+            if let Ok(mut n) = Cli::connect(33, &env.addr(), false).await {
+                if matches!(n.startup("u2", "pb", &[], Password::Md5("u2", "pw2")).await, AuthOutcome::Ok) {
+                    bail!("removed-pool-accepts-logins", "a new client was admitted as the removed user u2 of pb".to_string());
+                }
+            }
+        }
+        if c.change == Change::PasswordB {
             // the new password is in effect for new logins
             if let Ok(mut n) = Cli::connect(31, &env.addr(), false).await {
                 if !matches!(n.startup("u", "pb", &[], Password::Md5("u", "newpw")).await, AuthOutcome::Ok) {
@@ -459,7 +511,7 @@ async fn run_case(c: &Case, ctx: &mut WorkerCtx) -> Outcome {
     } else {
         // valid change: pools that did not change must not see new sessions
         let untouched: Vec<usize> = match c.change {
-            Change::RemovePoolB | Change::PasswordB => vec![A1],
+            Change::RemovePoolB | Change::PasswordB | Change::RemoveUserB => vec![A1],
             Change::AddPoolC => vec![A1, B1],
             _ => vec![B1],
         };
